@@ -38,8 +38,11 @@ ASSUMPTIONS = [
     "completeness of rdflib's canonical labelling is proved only up to ORDER: label independence of the whole modelled algorithm "
     "(C14_label_independent_partial); independence of the order of triples / set iteration is NOT proved (and false of the code at "
     "79109fff, finding FC14c) - C14_complete_statement stays a Definition; the differential runs against iso_dec are the evidence",
-    "generated graphs have no blank node in predicate position except the single-triple witness family of finding FC14a "
-    "(generalised RDF; the canonicaliser is label-dependent there)",
+    "blank nodes in predicate position (generalised RDF, finding FC14a: the canonicaliser is label-dependent) are generated in "
+    "about 5% of the iso/canon cases (single-triple and multi-triple families); for ISOMORPHIC such pairs (the trigger of FC14a) "
+    "rdflib's verdict depends on the order of SHA-256 values (whether _refine reaches a discrete colouring before it looks at the "
+    "leaking triple), so the expected observation is marked 'verdicts not determined' and only rdflib's own answer is judged by the "
+    "checker; non-isomorphic pairs must still be answered False",
     "graphs have at most 8 blank nodes (iso_dec by vm_compute; rdflib per-case timeout 20 s)",
     "skolem round trip: blank-node ids contain none of '/', '?', '#', ';', are not '.'/'..', no control characters or spaces; "
     "no IRI (or subject literal) of the graph has a path starting with /.well-known/genid/ (hypotheses of C14_skolem_roundtrip, "
@@ -313,7 +316,7 @@ def realise(rng, es, labels):
         return C(x[1]) if isinstance(x, tuple) else B(labels[x])
     out = []
     for s, p, o in es:
-        tr = [t(s), C(p), t(o)]
+        tr = [t(s), C(p) if isinstance(p, int) else B(labels[p[1]]), t(o)]
         if tr not in out:
             out.append(tr)
     rng.shuffle(out)
@@ -385,8 +388,8 @@ class C14(Suite):
     imports = "From RV Require Import Iso.Model."
     case_ty = "case"
     obs_ty = "obs"
-    kf = "kf"
-    kf_ids = {1: "FC14a", 2: "FC14b"}
+    kf = "kf"                # some triple has a blank-node predicate and the graphs are isomorphic
+    kf_ids = {1: "FC14a"}
     corr = "compare.isomorphic/to_isomorphic/to_canonical_graph/graph_diff, Graph.skolemize/de_skolemize"
     quick_n = 150
     thorough_n = 12000
@@ -407,7 +410,7 @@ class C14(Suite):
                                                "/.well-known/genid/"]),
                        "new_graph": rng.random() < 0.3,
                        "bnode": rng.choice(bl) if bl and rng.random() < 0.25 else None}
-        if case.get("fam") == "leak":
+        if case.get("fam") in ("leak", "bp"):
             # blank predicates (generalised RDF): Graph.skolemize leaves predicates alone, so through the external
             # branch a node that is predicate and subject/object comes back as two different nodes - out of scope
             case["skv"]["basepath"] = None
@@ -415,8 +418,10 @@ class C14(Suite):
 
     def _gen0(self, rng, i):
         r = rng.random()
-        if r < 0.03:
+        if r < 0.012:
             return self.gen_leak(rng)
+        if r < 0.05:
+            return self.gen_bp(rng)
         if r < 0.13:
             return self.gen_random(rng)
         if r < 0.43:
@@ -477,6 +482,30 @@ class C14(Suite):
         p2 = list(range(n)) if rng.random() < 0.5 else list(range(10, 10 + n))
         rng.shuffle(p2)
         return {"g1": realise(rng, es, p1), "g2": realise(rng, e2, p2), "fam": "random"}
+
+    def gen_bp(self, rng):
+        """finding FC14a in general: several triples, some with a blank-node predicate (generalised RDF)"""
+        n = rng.choice([2, 3, 3, 4, 5])
+        es = []
+        for _ in range(rng.choice([2, 3, 3, 4, 5])):
+            s_ = rng.randrange(n) if rng.random() < 0.75 else ("c", rng.choice([1, 2]))
+            o_ = rng.randrange(n) if rng.random() < 0.6 else ("c", rng.choice([1, 2, 5, 6]))
+            p_ = ("b", rng.randrange(n)) if rng.random() < 0.4 else rng.choice([P, Q])
+            es.append((s_, p_, o_))
+        if not any(isinstance(e[1], tuple) for e in es):
+            k = rng.randrange(len(es))
+            es[k] = (es[k][0], ("b", rng.randrange(n)), es[k][2])
+        e2 = list(es)
+        if rng.random() < 0.3:  # a different graph
+            k = rng.randrange(len(e2))
+            e2[k] = (e2[k][0], e2[k][1], ("c", 9))
+        p1 = list(range(n))
+        rng.shuffle(p1)
+        p2 = list(range(n)) if rng.random() < 0.5 else list(range(10, 10 + n))
+        rng.shuffle(p2)
+        if rng.random() < 0.2:
+            p2 = list(p1)
+        return {"g1": realise(rng, es, p1), "g2": realise(rng, e2, p2), "fam": "bp"}
 
     def gen_leak(self, rng):
         """finding FC14a: one triple with a blank predicate and >= 2 distinct blanks"""
@@ -583,7 +612,7 @@ class C14(Suite):
     def coq_obs(self, o):
         return ("{| o_iso := %s; o_toiso := %s; o_caneq := %s; o_alt1 := %s; o_alt2 := %s; o_cg1 := %s; o_cg2 := %s; "
                 "o_both := %s; o_first := %s; "
-                "o_second := %s; o_sk := %s; o_skv := %s |}" % (cbool(o["iso"]), cbool(o["toiso"]), cbool(o["caneq"]),
+                "o_second := %s; o_sk := %s; o_undet := false; o_skv := %s |}" % (cbool(o["iso"]), cbool(o["toiso"]), cbool(o["caneq"]),
                                                   cbool(o["alt1"]), cbool(o["alt2"]), c_graph(o["cg1"]),
                                                   c_graph(o["cg2"]), c_graph(o["both"]), c_graph(o["first"]),
                                                   c_graph(o["second"]), c_graph(o["sk"]), c_graph(o["skv"])))
@@ -601,14 +630,26 @@ class C14(Suite):
         return f
 
     def shrink(self, case):
-        for k in ("g1", "g2"):
-            g = case[k]
+        """at most ~30 candidates a round (each costs an rdflib run and a Coq evaluation): halves first, then single
+        triples, then - for small graphs only - one triple from each graph"""
+        g1, g2 = case["g1"], case["g2"]
+        for k, g in (("g1", g1), ("g2", g2)):
+            if len(g) >= 4:
+                h = len(g) // 2
+                yield dict(case, **{k: g[:h]})
+                yield dict(case, **{k: g[h:]})
+        if len(g1) >= 4 and len(g2) >= 4:
+            yield dict(case, g1=g1[:len(g1) // 2], g2=g2[:len(g2) // 2])
+        n = 0
+        for k, g in (("g1", g1), ("g2", g2)):
             for i in range(len(g)):
-                yield dict(case, **{k: g[:i] + g[i + 1:]})
-        # remove the same-shaped triple from both (keeps isomorphic pairs isomorphic more often)
-        for i in range(len(case["g1"])):
-            for j in range(len(case["g2"])):
-                yield dict(case, g1=case["g1"][:i] + case["g1"][i + 1:], g2=case["g2"][:j] + case["g2"][j + 1:])
+                if n < 24:
+                    n += 1
+                    yield dict(case, **{k: g[:i] + g[i + 1:]})
+        if len(g1) * len(g2) <= 9:
+            for i in range(len(g1)):
+                for j in range(len(g2)):
+                    yield dict(case, g1=g1[:i] + g1[i + 1:], g2=g2[:j] + g2[j + 1:])
 
     def sweep(self):
         """all pairs of graphs with <= 2 triples over 2 blank labels, one predicate, one constant"""
@@ -938,7 +979,7 @@ class C14Canon(Suite):
 
     def coq_obs(self, o):
         part = lambda p: clist(clist(c_term(t) for t in cl) for cl in p)  # noqa: E731
-        return "{| q_part1 := %s; q_part2 := %s; q_iso := %s; q_isoeq := %s; q_fail := %s |}" % (
+        return "{| q_part1 := %s; q_part2 := %s; q_iso := %s; q_isoeq := %s; q_fail := %s; q_undet := false |}" % (
             part(o["p1"]), part(o["p2"]), cbool(o["iso"]), cbool(o["isoeq"]), cbool(o["fail"]))
 
     def nontrivial(self, case, obs):
@@ -950,10 +991,7 @@ class C14Canon(Suite):
                 "impl_says_iso": int(obs["iso"]), "classes_g1": len(obs["p1"])}
 
     def shrink(self, case):
-        for k in ("g1", "g2"):
-            g = case[k]
-            for i in range(len(g)):
-                yield dict(case, **{k: g[:i] + g[i + 1:]})
+        return itertools.islice(SUITES[0].shrink(case), 30)
 
 
 SUITES = [C14(), C14Skolem(), C14History(), C14Canon()]
